@@ -81,7 +81,7 @@ impl Prop for C07 {
     }
 
     fn n_indices(&self, tier: Tier) -> u64 {
-        12000 * tier.scale()
+        48000 * tier.scale()
     }
 
     fn run_index(&self, idx: u64, seed: u64, _tier: Tier, rt: &mut Rt) -> Vec<Violation> {
